@@ -3,6 +3,7 @@ import numpy as np
 from .. import core, gen
 
 PROP_FILE = 'Knee/Props/C13.lean'
+PROP_FILES = ['Knee/Props/C13.lean', 'Knee/Props/Invariance.lean']
 RULE = ('curves with equal heights, plateaus, flat/vertical neighbour configurations (zero-area rectangles), ascending knee lists (all subsets for '
         'n<=7 quick / 9 thorough, random subsets beyond), thresholds t in {0, 1/4, 1/3, 1/2, 1} and IoU values of the input itself (exact ties). '
         'Correspondence is oracle-fed: heights are the y values, IoU values come from the package\'s own rect/rect_overlap on the corner/neighbour '
